@@ -457,7 +457,9 @@ def call_term(prog: Program, qualname: str, **given):
     defaults = g.defaults()
     args = []
     for p_ in names:
-        if p_ in given:
+        if p_ in given and p_ in defaults and given[p_] == _T().tr(defaults[p_]):
+            args.append(sp.Function("default")(given[p_]))       # the same normal form as a call that spells the default out
+        elif p_ in given:
             args.append(given[p_])
         elif p_ in defaults:
             args.append(sp.Function("default")(_T().tr(defaults[p_])))
